@@ -102,7 +102,7 @@ def main():
     os.environ["VERIF_TMP"] = os.path.join(HERE, "work")
 
     known_all = load_known()
-    known = [k for k in known_all if k.get("status") == "known" and k.get("property") == prop]
+    known = [k for k in known_all if k.get("status") == "known" and (k.get("property") == prop or prop in k.get("properties", []))]
 
     try:
         w, allc = _world(repo)
